@@ -370,16 +370,11 @@ class SymbolTable(OpTrait):
             raise ValueError(f"Operation {op} has no SymbolTable ancestor")
         if isinstance(name, str | StringAttr):
             name = SymbolRefAttr(name)
-        for o in anchor.regions[0].block.ops:
-            if (
-                sym_interface := o.get_trait(SymbolOpInterface)
-            ) is not None and sym_interface.get_sym_attr_name(o) == name.root_reference:
-                if not name.nested_references:
-                    return o
-                nested_root, *nested_references = name.nested_references.data
-                nested_name = SymbolRefAttr(nested_root, nested_references)
-                return SymbolTable.lookup_symbol(o, nested_name)
-        return None
+        # Nested references resolve only through symbol tables and never to private
+        # symbols: share the implementation of `xdsl.utils.symbol_table`.
+        from xdsl.utils.symbol_table import SymbolTable as SymbolTableUtils
+
+        return SymbolTableUtils.lookup_symbol_in(anchor, name)
 
     @staticmethod
     def insert_or_update(
